@@ -325,20 +325,29 @@ func (c *Client) getCachedConfig(cacheDir string) (*Config, error) {
 		return nil, fmt.Errorf("no cached versions available")
 	}
 
-	// Get the latest file (files are sorted in descending order by timestamp)
-	latestFile := files[0]
+	// Files are sorted in descending order by timestamp: prefer the latest one,
+	// but fall back to older versions if it cannot be read or parsed (e.g. it
+	// was left truncated by an interrupted write).
+	var lastErr error
+	for _, file := range files {
+		data, err := os.ReadFile(file)
+		if err != nil {
+			lastErr = fmt.Errorf("failed to read cached config: %w", err)
+			log.Warnf("skipping unreadable cache file %s: %v", file, err)
+			continue
+		}
 
-	data, err := os.ReadFile(latestFile)
-	if err != nil {
-		return nil, fmt.Errorf("failed to read cached config: %w", err)
+		var config Config
+		if err := json.Unmarshal(data, &config); err != nil {
+			lastErr = fmt.Errorf("failed to parse cached config: %w", err)
+			log.Warnf("skipping corrupt cache file %s: %v", file, err)
+			continue
+		}
+
+		return &config, nil
 	}
 
-	var config Config
-	if err := json.Unmarshal(data, &config); err != nil {
-		return nil, fmt.Errorf("failed to parse cached config: %w", err)
-	}
-
-	return &config, nil
+	return nil, lastErr
 }
 
 // getCached returns the latest cached config with metadata
